@@ -27,9 +27,9 @@ ID = "C09"
 LEVEL = "exploration"
 TECHNIQUE = ("history-based differential monitor: real scan_command with on-disk cache vs from-scratch scan after every scan step of "
              "an edit history; _analyze_file call counter + shadow cache model for the reuse decisions; bounded-exhaustive histories "
-             "up to length 2 (quick) / 3 (thorough) over 30 operations, random longer ones; version refusal of report/findings")
+             "up to length 2 (quick) / 3 (thorough) over 32 operations, random longer ones; version refusal of report/findings")
 RULE = ("one case = one history over {write(p,c), delete(p), rename(p,q), touch(p), swap(p,q), set_exclusions(e), "
-        "replace_cache(other_version | altered_checksums | swapped_entries)} on 3 paths x 3 contents, with a scan after every "
+        "replace_cache(other_version | near_version | odd_version | altered_checksums | swapped_entries)} on 3 paths x 3 contents, with a scan after every "
         "operation (exhaustive part) or at random places (random part, length 4-12); non-trivial = the history contains at least "
         "one operation that changes the tree or the cache between two scans; distinct = distinct histories")
 ASSUMPTIONS = ["a same-version cache whose values were altered while keeping path and md5 is indistinguishable from a valid cache; such "
@@ -38,8 +38,8 @@ ASSUMPTIONS = ["a same-version cache whose values were altered while keeping pat
                "reuse is never required: a change that disables caching keeps the property"]
 BOUNDS = {"quick": dict(n=32, depth=2, random=160, cli=1), "thorough": dict(n=64, depth=3, random=20000, cli=8)}
 EXHAUSTIVE = {"quick": True, "thorough": True}
-EXHAUSTIVE_SCOPE = {t: f"all histories of length <= {b['depth']} over the 30 operations, scan after every operation" for t, b in BOUNDS.items()}
-MINIMUM = {"quick": {"monitor.scans_compared": 3000, "monitor.reuse_decisions": 3000, "monitor.version_refusals": 100},
+EXHAUSTIVE_SCOPE = {t: f"all histories of length <= {b['depth']} over the 32 operations, scan after every operation" for t, b in BOUNDS.items()}
+MINIMUM = {"quick": {"monitor.scans_compared": 3000, "monitor.reuse_decisions": 3000, "monitor.version_refusals": 100, "foreign_versions.near_version": 50, "foreign_versions.odd_version": 50},
            "thorough": {"monitor.scans_compared": 150000, "monitor.reuse_decisions": 150000, "monitor.version_refusals": 3000}}
 PATHS = ["a.py", "src/b.py", "src/deep/c.py"]
 PY = "/venv/bin/python"
@@ -69,7 +69,7 @@ def operations():
         ops.append(("swap", p, q))
     for e in range(3):
         ops.append(("set_exclusions", e))
-    for k in ("other_version", "altered_checksums", "swapped_entries"):
+    for k in ("other_version", "near_version", "odd_version", "altered_checksums", "swapped_entries"):
         ops.append(("replace_cache", k))
     return ops
 
@@ -145,13 +145,40 @@ class World:
             return
         doc = read_cache(self.root)
         files = doc["codebase"]["files"]
-        if how == "other_version":
-            doc["version"] = "0.0.1"
+        if how in ("other_version", "near_version", "odd_version"):
+            from codelimit.common.report.Report import Report
+
+            cur = Report.VERSION
+            self.variant = getattr(self, "variant", 0) + 1 + len(self.history)
+            if how == "other_version":
+                ver = ["0.0.1", "99.0.0", "1.0"][self.variant % 3]
+            elif how == "near_version":
+                # another release of the same series: same major.minor, different patch; next/previous minor
+                parts = cur.split(".")
+                near = []
+                if parts[-1].isdigit():
+                    n = int(parts[-1])
+                    near += [".".join(parts[:-1] + [str(n + 1)]), ".".join(parts[:-1] + [str(n + 10)])]
+                    if n > 0:
+                        near.append(".".join(parts[:-1] + [str(n - 1)]))
+                if len(parts) >= 2 and parts[-2].isdigit():
+                    near.append(".".join(parts[:-2] + [str(int(parts[-2]) + 1), "0"]))
+                ver = near[self.variant % len(near)] if near else cur + ".1"
+            else:
+                odd = [None, "<missing>", "", " " + cur, cur + " ", "v" + cur, cur + ".dev1", cur + "-other", cur + "+local", cur.upper() + "A",
+                       cur + ".0", "0" + cur]
+                ver = odd[self.variant % len(odd)]
+            if ver == "<missing>":
+                doc.pop("version", None)
+                ver = None
+            else:
+                doc["version"] = ver
             for v in files.values():  # stale values that must not survive
                 v["loc"] = 99
                 for m in v["measurements"]:
                     m["value"] = 99
-            self.shadow = {"version": "0.0.1", "entries": dict(self.shadow["entries"])}
+            self.shadow = {"version": ver if ver is not None else "<none>", "entries": dict(self.shadow["entries"])}
+            self.ctx.count("foreign_versions." + how)
         elif how == "altered_checksums":
             for k, v in files.items():
                 v["checksum"] = hashlib.md5(("x" + v["checksum"]).encode()).hexdigest()
@@ -226,8 +253,19 @@ def version_refusal(ctx, root, case):
     from codelimit.commands.report import report_command
     from codelimit.common.report.ReportFormat import ReportFormat
 
+    from codelimit.common.report.Report import Report
+
     doc = read_cache(root)
-    doc["version"] = "0.0.1"
+    cur = Report.VERSION
+    parts = cur.split(".")
+    bump = ".".join(parts[:-1] + [str(int(parts[-1]) + 1)]) if parts[-1].isdigit() else cur + ".1"
+    variants = ["0.0.1", bump, cur + ".dev1", "<missing>", "", cur + " "]
+    ver = variants[len(json.dumps(case["history"])) % len(variants)]
+    if ver == "<missing>":
+        doc.pop("version", None)
+    else:
+        doc["version"] = ver
+    case = dict(case, foreign_version=ver)
     with open(cache_path(root), "w") as f:
         json.dump(doc, f)
     for name, fn in (("report", lambda: report_command(Path(root), ReportFormat.text, None)),
@@ -318,7 +356,7 @@ def replay(case, ctx):
         run_history(ctx, h)
 
 
-LEVEL_TEXT = ("Every history up to the stated length over 30 file/cache operations is executed against the real scan_command with its "
+LEVEL_TEXT = ("Every history up to the stated length over 32 file/cache operations is executed against the real scan_command with its "
               "real on-disk cache, and after every scan the result is compared with a from-scratch scan while a call counter and a "
               "shadow cache model judge each reuse decision; longer random histories and CLI subprocess histories on top. "
               "Bounded-exhaustive exploration of histories; right level because cache faults need a specific sequence "
